@@ -326,3 +326,28 @@ def helper_closure(idx, fi):
             out.append(g)
             work.append(g)
     return out
+
+
+def lossy_number_formatting(idx, fi):
+    """[(node, what)] for constructs that print a number with fewer digits than it has: format specs with a
+    precision/presentation type, % formatting, rounding and narrowing conversions"""
+    out = []
+    for n in own_nodes(fi.node):
+        if isinstance(n, ast.Call):
+            q = idx.qualname(fi.module, n.func, fi) or src(n.func)
+            nm = q.split(".")[-1]
+            if nm in ("round", "around", "rint", "floor", "ceil", "trunc", "float32", "float16", "format_float_positional", "format_float_scientific", "array2string"):
+                out.append((n, nm))
+            if isinstance(n.func, ast.Attribute) and n.func.attr == "format" and isinstance(n.func.value, ast.Constant) and isinstance(n.func.value.value, str):
+                import re
+                for m in re.finditer(r"\{[^{}:]*:([^{}]*)\}", n.func.value.value):
+                    spec = m.group(1)
+                    if spec and (spec[-1] in "eEfFgGdn%" or "." in spec):
+                        out.append((n, "format spec `%s`" % spec))
+            if isinstance(n.func, ast.Name) and n.func.id == "format" and len(n.args) == 2 and isinstance(n.args[1], ast.Constant) and n.args[1].value:
+                out.append((n, "format spec `%s`" % n.args[1].value))
+        if isinstance(n, ast.JoinedStr) and any(isinstance(v, ast.FormattedValue) and v.format_spec is not None for v in n.values):
+            out.append((n, "format spec"))
+        if isinstance(n, ast.BinOp) and isinstance(n.op, ast.Mod) and isinstance(n.left, ast.Constant) and isinstance(n.left.value, str) and any(c in n.left.value for c in ("%e", "%f", "%g", "%d", "%.", "%E", "%G")):
+            out.append((n, "% formatting"))
+    return out
